@@ -119,6 +119,51 @@ def check(ctx):
         for c in conns:
             fsolo.append(sconnp.case(c, cfg=cfg))
             fowner.append(m)
+    # limit-reaching traffic on one connection, ordinary compressed traffic on the others: a compression bomb (doubly gzipped zeros: more than the
+    # bomb limit and more than 2048 times the wire bytes), a body that exceeds the LZMA / layer limits, an oversized header -- whatever the parser of
+    # connection A concludes from them must stay with connection A
+    import zlib
+    def gz(b):
+        c = zlib.compressobj(9, zlib.DEFLATED, 31)
+        return c.compress(b) + c.flush()
+    bomb = gz(gz(b"\0" * (4 << 20)))
+    nbomb = 0
+    for m in range(len(fmulti), len(fmulti) + (24 if ctx.thorough() else 8)):
+        cfg = sconnp.cfg_str(p=rng.choice([1, 9])) + ",full=1"
+        k = rng.randint(2, 3)
+        conns = []
+        for ci in range(k):
+            ops = ["O"]
+            rq = b"GET /%d HTTP/1.1\r\nHost: a\r\n\r\n" % ci
+            if ci == 0:
+                kind = rng.choice(["bomb", "bomb", "layers", "bigheader"])
+                if kind == "bomb":
+                    rs = b"HTTP/1.1 200 OK\r\nContent-Encoding: gzip, gzip\r\nContent-Length: %d\r\n\r\n" % len(bomb) + bomb
+                    nbomb += 1
+                elif kind == "layers":
+                    rs = b"HTTP/1.1 200 OK\r\nContent-Encoding: gzip, gzip, gzip, gzip\r\nContent-Length: 10\r\n\r\n0123456789"
+                else:
+                    rs = b"HTTP/1.1 200 OK\r\nX-Big: " + b"a" * 20000 + b"\r\nContent-Length: 0\r\n\r\n"
+            else:
+                body = gz(b"ordinary text %d " % ci * 5)
+                rs = b"HTTP/1.1 200 OK\r\nContent-Encoding: gzip\r\nContent-Length: %d\r\n\r\n" % len(body) + body
+            ops.append("Q" + rq.hex())
+            for piece in sconnp.cut(rs, sconnp.split_points(rs, rng, rng.choice(["whole", "random"]))):
+                ops.append("S" + piece.hex())
+            # the other connections carry a second exchange, so that some response head is always processed AFTER connection 0 hit its limit
+            if ci != 0:
+                ops.append("Q" + rq.hex())
+                ops.append("S" + rs.hex())
+            ops.append("C")
+            conns.append(ops)
+        total = sum(len(c) for c in conns)
+        sched = "".join(str(rng.randrange(k)) for _ in range(total * 2))
+        if rng.random() < 0.5:
+            sched = "0" * len(conns[0]) + sched       # connection 0 first, completely
+        fmulti.append("multi\t%s\t%s\t%s" % (cfg, sched, "\t".join(",".join(c) for c in conns)))
+        for c in conns:
+            fsolo.append(sconnp.case(c, cfg=cfg))
+            fowner.append(m)
     fo, fb = vf.run_sharded(ctx, exe, fmulti, "S-multi-full")
     fo, _ = vf.strip_traces(fo)
     fso, fb2 = sconnp.run_impl(ctx, fsolo, tag="S-multi-full-solo")
@@ -139,7 +184,7 @@ def check(ctx):
                 kind = "shared-configuration-written" if "frame=CHANGED" in o else "interleaved-run-differs-from-solo-run"
                 vf.violation(ctx, "S-multi-full-%d" % m, {"kind": kind, "suite": "S-multi (full configuration, library only)", "case": c, "interleaved": o[-3000:],
                                                          "solo_runs_joined": exp[-3000:], "theorem": "Properties_C19.v C19_noninterference (shape of the code)"})
-    ctx.cov["suites"]["S-multi-full(impl only)"] = {"cases": len(fmulti), "connections": len(fsolo), "mismatch_vs_solo": nfb}
+    ctx.cov["suites"]["S-multi-full(impl only)"] = {"cases": len(fmulti), "connections": len(fsolo), "mismatch_vs_solo": nfb, "compression_bomb_cases": nbomb}
     # configuration copies are independent configurations: a parser of the original never sees callbacks registered on the copy afterwards (and vice versa),
     # whatever subset of the hooks was registered before the copy; both can be destroyed (suite S-cfgcopy, library against itself)
     HOOKS = [0, 1, 2, 3, 4, 5, 7, 8, 9, 10, 11, 12, 13, 14, 15, 16, 17, 18]
